@@ -49,6 +49,10 @@ def make_form(rng, i):
     f = Form()
     nl = rng.randint(0, 5)
     lists = [f"{rng.choice(['l', 'lst', 'opts', 'c'])}{k}" for k in range(nl)]
+    if nl >= 2 and rng.random() < 0.2:
+        lists[1] = lists[0].upper() if rng.random() < 0.5 else lists[0].capitalize()  # two lists whose names differ only by case are two lists
+        if lists[1] == lists[0]:
+            lists[1] = lists[0] + "X"
     langs = rng.choice([[], [], ["en", "fr"]])
     dup_ok = rng.random() < 0.15
     extras_used = []
@@ -70,6 +74,9 @@ def make_form(rng, i):
                     c[ec] = f"{ec}.{ln}.{k}"
             if rng.random() < 0.1:
                 c["image"] = f"img.{ln}.{k}.png"
+            if n > 1 and k < n - 1 and rng.random() < 0.08 and "image" not in c:
+                for h in [h for h in c if h.startswith("label")]:
+                    del c[h]  # a choice without any label (pyxform only warns): everything after it must stay aligned
             rows.append(c)
         f.choices[ln] = rows
         for ec in extra:
@@ -312,6 +319,22 @@ def check(ctx, form, sig, sample=False):
                     kind = "field-unexpected"
                 ctx.viol(f"items:{kind}", f"list {ln} item {idx}: {g}, expected {want}", wit())
                 break
+        if req:
+            # the itextId of every choice must lead, in each language the sheet gives a label for, to that choice's own label
+            trs, _n = p.itext()
+            bylang = {t[0]: t[2] for t in trs}
+            for idx, c in enumerate(form.choices[ln]):
+                for h, v in c.items():
+                    b, lg = split_header(h)
+                    if b != "label" or lg is None or lg not in bylang or "${" in str(v):
+                        continue
+                    vals = bylang[lg].get(f"{ln}-{idx}")
+                    ctx.ctr("choice_itext_labels_followed")
+                    got = None if vals is None else next((xf.segs_text(sg) for fm, sg in vals if fm is None), None)
+                    if got != v:
+                        ctx.viol("items:itext-label-of-another-choice" if (got and str(got).startswith("lab.")) else "items:itext-label-missing",
+                                 f"list {ln} choice {idx} ({c.get('name')!r}): itext '{ln}-{idx}' in {lg!r} is {got!r}, the sheet says {v!r}", wit())
+                        break
     # -- declared external instances
     for iid, src in decl.items():
         ctx.ctr("instances_compared")
